@@ -6,6 +6,20 @@ HERE = os.path.dirname(os.path.dirname(os.path.abspath(__file__)))
 PROPS = [json.loads(l)['id'] for l in open(os.path.join(HERE, 'properties.jsonl'))]
 
 CHECKS = {
+ 'C13': dict(category='proof', design_ref='DESIGN.md section 4 (C13)',
+    text='do_build is executed symbolically from its real source (the six-section loop unrolled exactly, state merging at joins; '
+         'about 1100 paths). At the one call of file.to_file it is proved, for every combination of optional arguments and every '
+         'answer of the file system predicates, that each section of the cart being written is: the named source cart\'s section if '
+         '--X was given, the empty default if --empty-X was given, else OUT\'s previous section (the empty default if OUT did not '
+         'exist); that the label is the previous OUT\'s; that the cart is written to OUT; and that file.to_file is reached only with '
+         'usable arguments. The function contract: it returns 0 exactly when the cart was written once; conflicting or unusable '
+         'arguments (both --X and --empty-X, missing file, wrong extension, bad OUT extension) return 1 without any write; an '
+         'exception (LuaBuildError from require resolution) leaves OUT untouched.',
+    note='Carts are abstract values (SEC(file, section), LABEL(file), EMPTY(section)); file names are abstract with uninterpreted '
+         'exists/endswith predicates. The .lua source path is summarised as an abstract function of the file (C14). What file.to_file '
+         'does with the cart is C03/C04/C11. A bounded native run of the real build over assignments x OUT states compares every '
+         'section read back (replay).',
+    technique='contract-based deductive verification: symbolic execution of the real do_build with abstract carts, obligations at the write site discharged by z3'),
  'C20': dict(category='proof', design_ref='DESIGN.md section 4 (C20)',
     text='lines_for_tab is proved (loop invariant over the real generator loop, concatenation model with offset function, lemmas) to '
          'yield, for every line list of any length and every tab selector, exactly the lines the statement describes: with t(i) the '
